@@ -459,6 +459,10 @@ func (m *engineMon) afterOp(opLine string, pre *pokerface.GameState, err error) 
 			if qp.Wager != st.CurrentWager {
 				m.V("C11", "effects", fmt.Sprintf("after the call seat %d has wagered %d, wager to match is %d", actor, qp.Wager, st.CurrentWager))
 			}
+			// reading I2: a call lifts the wager to match only when it completes a wager below the big blind
+			if pcw >= c.bb && st.CurrentWager != pcw {
+				m.V("C11", "effects", fmt.Sprintf("a call lifted the wager to match from %d to %d (big blind %d)", pcw, st.CurrentWager, c.bb))
+			}
 		case "bet":
 			if op.x > 0 && op.x < pp.StackSize && (st.CurrentWager != op.x || qp.Wager != op.x) {
 				m.V("C11", "effects", fmt.Sprintf("bet %d: wager to match %d, bettor's wager %d", op.x, st.CurrentWager, qp.Wager))
